@@ -148,135 +148,175 @@ func runC04(tp *sim.Tape, opt sim.RunOpt) *sim.Outcome {
 		harnessDie("the getters appended to an accepted program were rejected: %v\n%s", err, full)
 	}
 	// ---- the interpreter's side ----
-	in := &interp{tm: p.tm, funcs: p.funcs, strct: p.strct, this: map[t.ID]*val{}, maxStep: 200000}
+	// Several independent histories per program: the compile dominates a run's
+	// cost, executing a history takes milliseconds. Every history starts from a
+	// freshly initialised receiver and (coroutines) its own source stream,
+	// destination capacity and delivery policy.
 	var recs []callRec
 	var giveUp string
 	var coroCalls []string
-	var stream []byte
-	dstCap := 1
-	if opt.Mode == "coro" {
-		// The simulated caller of coro.go runs the history and records its
-		// actions; the C driver repeats them.
-		res := driveHistory(p, tp, nil)
-		in = res.interp
-		coroCalls, stream, dstCap = res.calls, res.stream, res.dstCap
-		o.ProbeN("suspensions", int64(res.suspensions))
-		if res.suspensions > 0 {
-			o.Probe("runs_with_a_suspension")
-		}
-		switch {
-		case res.viol != nil:
-			giveUp = "c01_class_violation: " + res.viol.class
-		case res.unsupported != "":
-			giveUp = "unsupported: " + firstWords(res.unsupported, 3)
-		}
-		off := 0
-		for _, st := range res.steps2 {
-			switch st.kind {
-			case "plain":
-				recs = append(recs, callRec{fn: st.fn, args: st.cargs, line: st.expect})
-			case "drain":
-				recs = append(recs, callRec{line: st.expect,
-					c: "  printf(\"dst \"); for (size_t i = 0; i < dst.meta.wi; i++) { printf(\"%02x\", dstdata[i]); } printf(\"\\n\"); dst.meta.pos += dst.meta.wi; dst.meta.wi = 0;\n"})
-			case "enter":
-				var cb strings.Builder
-				if n := len(st.appendSrc); n > 0 {
-					fmt.Fprintf(&cb, "  memcpy(srcdata + src.meta.wi, stream + %d, %d); src.meta.wi += %d;\n", off, n, n)
-					off += n
-				}
-				if st.closeSrc {
-					cb.WriteString("  src.meta.closed = true;\n")
-				}
-				fname := st.fn.FuncName().Str(p.tm)
-				fmt.Fprintf(&cb, "  st = wuffs_zfoo__foo__%s(%s);\n", fname, strings.Join(append([]string{"f"}, st.cargs...), ", "))
-				fmt.Fprintf(&cb, "  printf(\"%s? %%s ri=%%zu wi=%%zu\\n\", st.repr ? st.repr : \"ok\", src.meta.ri, dst.meta.wi);\n", fname)
-				recs = append(recs, callRec{fn: st.fn, args: st.cargs, line: st.expect, c: cb.String()})
+	var streams [][]byte
+	var dstCaps []int
+	totalSteps := 0
+	nh := 2 + tp.Draw(3)
+	oneHistory := func(h int) (hrecs []callRec, why string, calls []string, steps int) {
+		in := &interp{tm: p.tm, funcs: p.funcs, strct: p.strct, this: map[t.ID]*val{}, maxStep: 200000}
+		// the C side starts every history by re-initialising the object
+		reset := fmt.Sprintf("  if (wuffs_zfoo__foo__initialize(f, sizeof__wuffs_zfoo__foo(), WUFFS_VERSION, 0).repr) return 4;\n  printf(\"== history %d\\n\");\n", h)
+		if opt.Mode == "coro" {
+			// The simulated caller of coro.go runs the history and records its
+			// actions; the C driver repeats them.
+			res := driveHistory(p, tp, nil)
+			in = res.interp
+			calls = res.calls
+			streams, dstCaps = append(streams, res.stream), append(dstCaps, res.dstCap)
+			o.ProbeN("suspensions", int64(res.suspensions))
+			if res.suspensions > 0 {
+				o.Probe("histories_with_a_suspension")
 			}
+			switch {
+			case res.viol != nil:
+				why = "c01_class_violation: " + res.viol.class
+			case res.unsupported != "":
+				why = "unsupported: " + firstWords(res.unsupported, 3)
+			}
+			reset += fmt.Sprintf("  src = wuffs_base__ptr_u8__writer(srcdata, 64); dst = wuffs_base__ptr_u8__writer(dstdata, %d);\n", res.dstCap)
+			hrecs = append(hrecs, callRec{line: fmt.Sprintf("== history %d", h), c: reset})
+			off := 0
+			for _, st := range res.steps2 {
+				switch st.kind {
+				case "plain":
+					hrecs = append(hrecs, callRec{fn: st.fn, args: st.cargs, line: st.expect})
+				case "drain":
+					hrecs = append(hrecs, callRec{line: st.expect,
+						c: "  printf(\"dst \"); for (size_t i = 0; i < dst.meta.wi; i++) { printf(\"%02x\", dstdata[i]); } printf(\"\\n\"); dst.meta.pos += dst.meta.wi; dst.meta.wi = 0;\n"})
+				case "enter":
+					var cb strings.Builder
+					if n := len(st.appendSrc); n > 0 {
+						fmt.Fprintf(&cb, "  memcpy(srcdata + src.meta.wi, stream%d + %d, %d); src.meta.wi += %d;\n", h, off, n, n)
+						off += n
+					}
+					if st.closeSrc {
+						cb.WriteString("  src.meta.closed = true;\n")
+					}
+					fname := st.fn.FuncName().Str(p.tm)
+					fmt.Fprintf(&cb, "  st = wuffs_zfoo__foo__%s(%s);\n", fname, strings.Join(append([]string{"f"}, st.cargs...), ", "))
+					fmt.Fprintf(&cb, "  printf(\"%s? %%s ri=%%zu wi=%%zu\\n\", st.repr ? st.repr : \"ok\", src.meta.ri, dst.meta.wi);\n", fname)
+					hrecs = append(hrecs, callRec{fn: st.fn, args: st.cargs, line: st.expect, c: cb.String()})
+				}
+			}
+		} else {
+			hrecs = append(hrecs, callRec{line: fmt.Sprintf("== history %d", h), c: reset})
 		}
-	}
-	func() {
-		defer func() {
-			if r := recover(); r != nil {
-				switch x := r.(type) {
-				case *violation:
-					giveUp = "c01_class_violation: " + x.class
-				case unsupported:
-					giveUp = "unsupported: " + firstWords(x.what, 3)
-				default:
-					panic(r)
+		func() {
+			defer func() {
+				if r := recover(); r != nil {
+					switch x := r.(type) {
+					case *violation:
+						why = "c01_class_violation: " + x.class
+					case unsupported:
+						why = "unsupported: " + firstWords(x.what, 3)
+					default:
+						panic(r)
+					}
+				}
+			}()
+			if opt.Mode != "coro" {
+				for _, fo := range p.strct.Fields() {
+					f := fo.AsField()
+					in.this[f.Name()] = in.zero(f.XType())
+				}
+			}
+			if why != "" {
+				return
+			}
+			callable := p0.pubs
+			ncalls := 1 + tp.Draw(6)
+			if opt.Mode == "coro" {
+				ncalls = 0
+			}
+			for i := 0; i < ncalls; i++ {
+				fn := p.funcs[callable[tp.Draw(len(callable))].FuncName()]
+				argv := map[t.ID]*val{}
+				var cargs []string
+				for _, q := range fn.In().Fields() {
+					fld := q.AsField()
+					lo, hi, ok := in.typeRange(fld.XType())
+					switch {
+					case ok:
+						v := drawInt(tp, lo, hi)
+						argv[fld.Name()] = bigVal(v)
+						cargs = append(cargs, fmt.Sprintf("(%s)%sULL", cType(in, fld.XType()), v.String()))
+					case fld.XType().IsBool():
+						b := tp.Bool()
+						argv[fld.Name()] = boolVal(b)
+						cargs = append(cargs, map[bool]string{true: "true", false: "false"}[b])
+					default:
+						unsup("parameter type %s", fld.XType().Str(p.tm))
+					}
+				}
+				if fn.Out() != nil && cType(in, fn.Out()) == "" {
+					unsup("result type %s", fn.Out().Str(p.tm))
+				}
+				ret := in.call(fn, argv, false)
+				hrecs = append(hrecs, callRec{fn: fn, args: cargs, line: renderRet(fn.FuncName().Str(p.tm), ret)})
+				calls = append(calls, fmt.Sprintf("%s(%s) -> %s", fn.FuncName().Str(p.tm), strings.Join(cargs, ", "), strings.TrimPrefix(renderRet("", ret), " ")))
+			}
+			// dump the receiver through the getters
+			for _, g := range getters {
+				gname, n := g, 0
+				if i := strings.IndexByte(g, '/'); i >= 0 {
+					gname = g[:i]
+					fmt.Sscan(g[i+1:], &n)
+				}
+				id := p.tm.ByName(gname)
+				fn := p.funcs[id]
+				if fn == nil {
+					harnessDie("getter %s not found", gname)
+				}
+				if n == 0 {
+					ret := in.call(fn, map[t.ID]*val{}, false)
+					hrecs = append(hrecs, callRec{fn: fn, line: renderRet(gname, ret)})
+					continue
+				}
+				for k := 0; k < n; k++ {
+					argName := fn.In().Fields()[0].AsField().Name()
+					ret := in.call(fn, map[t.ID]*val{argName: bigVal(big.NewInt(int64(k)))}, false)
+					hrecs = append(hrecs, callRec{fn: fn, args: []string{fmt.Sprintf("(uint32_t)%dULL", k)}, line: renderRet(fmt.Sprintf("%s[%d]", gname, k), ret)})
 				}
 			}
 		}()
-		if opt.Mode != "coro" {
-			for _, fo := range p.strct.Fields() {
-				f := fo.AsField()
-				in.this[f.Name()] = in.zero(f.XType())
+		return hrecs, why, calls, in.steps
+	}
+	for h := 0; h < nh; h++ {
+		hrecs, why, calls, steps := oneHistory(h)
+		totalSteps += steps
+		if why != "" {
+			// C01's subject, or outside the interpreter's subset: this history
+			// gives no comparison; earlier complete ones still do.
+			o.Probe("history_without_comparison: " + why)
+			if opt.Mode == "coro" {
+				streams, dstCaps = streams[:len(streams)-1], dstCaps[:len(dstCaps)-1]
 			}
+			if len(recs) == 0 {
+				giveUp = why
+			}
+			break
 		}
-		if giveUp != "" {
-			return
-		}
-		callable := p0.pubs
-		ncalls := 1 + tp.Draw(6)
-		if opt.Mode == "coro" {
-			ncalls = 0
-		}
-		for i := 0; i < ncalls; i++ {
-			fn := p.funcs[callable[tp.Draw(len(callable))].FuncName()]
-			argv := map[t.ID]*val{}
-			var cargs []string
-			for _, q := range fn.In().Fields() {
-				fld := q.AsField()
-				lo, hi, ok := in.typeRange(fld.XType())
-				switch {
-				case ok:
-					v := drawInt(tp, lo, hi)
-					argv[fld.Name()] = bigVal(v)
-					cargs = append(cargs, fmt.Sprintf("(%s)%sULL", cType(in, fld.XType()), v.String()))
-				case fld.XType().IsBool():
-					b := tp.Bool()
-					argv[fld.Name()] = boolVal(b)
-					cargs = append(cargs, map[bool]string{true: "true", false: "false"}[b])
-				default:
-					unsup("parameter type %s", fld.XType().Str(p.tm))
-				}
-			}
-			if fn.Out() != nil && cType(in, fn.Out()) == "" {
-				unsup("result type %s", fn.Out().Str(p.tm))
-			}
-			ret := in.call(fn, argv, false)
-			recs = append(recs, callRec{fn: fn, args: cargs, line: renderRet(fn.FuncName().Str(p.tm), ret)})
-		}
-		// dump the receiver through the getters
-		for _, g := range getters {
-			gname, n := g, 0
-			if i := strings.IndexByte(g, '/'); i >= 0 {
-				gname = g[:i]
-				fmt.Sscan(g[i+1:], &n)
-			}
-			id := p.tm.ByName(gname)
-			fn := p.funcs[id]
-			if fn == nil {
-				harnessDie("getter %s not found", gname)
-			}
-			if n == 0 {
-				ret := in.call(fn, map[t.ID]*val{}, false)
-				recs = append(recs, callRec{fn: fn, line: renderRet(gname, ret)})
-				continue
-			}
-			for k := 0; k < n; k++ {
-				argName := fn.In().Fields()[0].AsField().Name()
-				ret := in.call(fn, map[t.ID]*val{argName: bigVal(big.NewInt(int64(k)))}, false)
-				recs = append(recs, callRec{fn: fn, args: []string{fmt.Sprintf("(uint32_t)%dULL", k)}, line: renderRet(fmt.Sprintf("%s[%d]", gname, k), ret)})
-			}
-		}
-	}()
+		recs = append(recs, hrecs...)
+		coroCalls = append(coroCalls, fmt.Sprintf("[history %d]", h))
+		coroCalls = append(coroCalls, calls...)
+		o.Probe("histories_compared")
+	}
 	for _, r := range recs {
 		fp.AddStr(r.line)
 	}
 	o.FP = fp.Sum()
-	o.Steps = int64(in.steps)
-	if giveUp != "" {
+	o.Steps = int64(totalSteps)
+	if len(recs) == 0 {
+		if giveUp == "" {
+			giveUp = "no complete history"
+		}
 		// C01's subject (or outside the interpreter's subset): no comparison.
 		o.Probe("no_comparison: " + giveUp)
 		return o
@@ -311,21 +351,28 @@ func runC04(tp *sim.Tape, opt sim.RunOpt) *sim.Outcome {
 	mc.WriteString("#define WUFFS_IMPLEMENTATION\n#define WUFFS_CONFIG__MODULES\n#define WUFFS_CONFIG__MODULE__BASE__CORE\n#define WUFFS_CONFIG__MODULE__ZFOO\n")
 	mc.WriteString("#include \"./wuffs-std-zfoo.c\"\n#include <stdio.h>\n#include <stdlib.h>\n#include <string.h>\n")
 	if opt.Mode == "coro" {
-		// the caller-owned I/O buffers and the source stream
-		mc.WriteString("static uint8_t srcdata[64];\n")
-		fmt.Fprintf(&mc, "static uint8_t dstdata[%d];\n", dstCap)
-		mc.WriteString("static const uint8_t stream[64] = {")
-		for _, c := range stream {
-			fmt.Fprintf(&mc, "%d,", c)
+		// the caller-owned I/O buffers and one source stream per history
+		maxCap := 1
+		for _, c := range dstCaps {
+			if c > maxCap {
+				maxCap = c
+			}
 		}
-		mc.WriteString("0};\n")
+		mc.WriteString("static uint8_t srcdata[64];\n")
+		fmt.Fprintf(&mc, "static uint8_t dstdata[%d];\n", maxCap)
+		for h, stream := range streams {
+			fmt.Fprintf(&mc, "static const uint8_t stream%d[64] = {", h)
+			for _, c := range stream {
+				fmt.Fprintf(&mc, "%d,", c)
+			}
+			mc.WriteString("0};\n")
+		}
 	}
 	mc.WriteString("int main(void) {\n  wuffs_zfoo__foo* f = (wuffs_zfoo__foo*)malloc(sizeof__wuffs_zfoo__foo());\n  if (!f) return 3;\n")
-	mc.WriteString("  if (wuffs_zfoo__foo__initialize(f, sizeof__wuffs_zfoo__foo(), WUFFS_VERSION, 0).repr) return 4;\n")
 	if opt.Mode == "coro" {
 		mc.WriteString("  wuffs_base__io_buffer src = wuffs_base__ptr_u8__writer(srcdata, 64);\n")
-		fmt.Fprintf(&mc, "  wuffs_base__io_buffer dst = wuffs_base__ptr_u8__writer(dstdata, %d);\n", dstCap)
-		mc.WriteString("  wuffs_base__status st = wuffs_base__make_status(NULL);\n  (void)st; (void)stream;\n")
+		mc.WriteString("  wuffs_base__io_buffer dst = wuffs_base__ptr_u8__writer(dstdata, 1);\n")
+		mc.WriteString("  wuffs_base__status st = wuffs_base__make_status(NULL);\n  (void)st; (void)src; (void)dst;\n")
 	}
 	for _, r := range recs {
 		if r.c != "" {
@@ -378,7 +425,7 @@ func runC04(tp *sim.Tape, opt sim.RunOpt) *sim.Outcome {
 	run.Stdout, run.Stderr = &so, &se
 	rerr := run.Run()
 	if ctx.Err() != nil {
-		harnessDie("the generated program did not finish in time (the interpreter did, in %d steps)", in.steps)
+		harnessDie("the generated program did not finish in time (the interpreter did, in %d steps)", totalSteps)
 	}
 	var want []string
 	for _, r := range recs {
@@ -387,15 +434,7 @@ func runC04(tp *sim.Tape, opt sim.RunOpt) *sim.Outcome {
 	got := strings.Split(strings.TrimRight(so.String(), "\n"), "\n")
 	o.Nontrivial = len(recs) > 0
 	o.ProbeN("calls_compared", int64(len(recs)))
-	var calls []string
-	for i, r := range recs {
-		if r.fn != nil && r.c == "" && r.fn.Public() && !strings.HasPrefix(r.fn.FuncName().Str(p.tm), "vget_") {
-			calls = append(calls, fmt.Sprintf("%s(%s) -> %s", r.fn.FuncName().Str(p.tm), strings.Join(r.args, ", "), strings.TrimPrefix(want[i], r.fn.FuncName().Str(p.tm)+" ")))
-		}
-	}
-	if opt.Mode == "coro" {
-		calls = coroCalls
-	}
+	calls := coroCalls
 	o.Sample = map[string]interface{}{"program": name, "source": src, "calls": calls, "c_build": variant}
 	if opt.Verbose {
 		for _, l := range strings.Split(src, "\n") {
